@@ -141,7 +141,7 @@ pub fn emit(part: bool, text: String) {
         } else {
             let mut l = std::mem::take(&mut c.partial);
             l.push_str(&text);
-            if l.starts_with("info depth") {
+            if crate::srch::is_depth_line(&l) {
                 let p = c.polls;
                 c.iter_marks.push(p);
             }
